@@ -640,6 +640,9 @@ def gen_cases(rng, tier, h):
                 c.append(_atask(rng))
         if pending:
             c.append("wait_all")
+        if rng.chance(0.35) and not tsan:
+            # the process exits normally while closures are still queued behind parked workers
+            c.append("leave %d" % rng.pick([1, 3, 12, 40]))
         cases.append(c)
     return cases
 
